@@ -131,6 +131,15 @@ func lexeme(c, guard string) string {
 		return "pwned.txt"
 	case "G":
 		return strings.TrimPrefix(guard, "/")
+	// siblings of the designated directory "out" whose names have its base name as a string prefix
+	case "sib2":
+		return "out2"
+	case "sibbak":
+		return "out.bak"
+	case "sibdir":
+		return "out-evil"
+	case "sibtxt":
+		return "output.txt"
 	}
 	return c // a, b, d, f, ...
 }
@@ -312,6 +321,10 @@ func layerTar() []byte {
 		{tar.TypeReg, "d/f", "", []byte("layer file")},
 		{tar.TypeReg, "victim", "", []byte("OVERWRITTEN BY LAYER")},
 		{tar.TypeReg, "pwned.txt", "", []byte("pwned")},
+		{tar.TypeReg, "../out2", "", []byte("sibling file")},
+		{tar.TypeDir, "../out-evil/", "", nil},
+		{tar.TypeReg, "../out-evil/f", "", []byte("file in sibling directory")},
+		{tar.TypeReg, "d/../../output.txt", "", []byte("sibling file behind d/..")},
 		{tar.TypeReg, "../victim", "", []byte("OVERWRITTEN BY LAYER 2")},
 	})
 }
